@@ -225,6 +225,18 @@ class NamespaceMapper(MutableMapping[str, str]):
                 )
                 self._xmlns_contexts.append(context)
                 self.namespaces.update(xmlns)
+
+                # A prefix rebound to another namespace must not be used anymore for the
+                # namespace it was mapped to: repair or remove the stale reverse entries.
+                for uri, prefix in list(self._reverse.items()):
+                    if self.namespaces.get(prefix[:-1] if prefix else '') != uri:
+                        for k in reversed(self.namespaces.keys()):
+                            if self.namespaces[k] == uri:
+                                self._reverse[uri] = k and k + ':'
+                                break
+                        else:
+                            del self._reverse[uri]
+
                 if level:
                     self._reverse.update((v, k and k + ':') for k, v in xmlns)
                 else:
